@@ -35,7 +35,37 @@ EsmView(S) == [esm |-> [k \in {"found", "status", "start", "end", "snap", "vault
                ctl |-> S.ctl, ubal |-> S.ubal, supply |-> S.supply, vaults |-> S.vaults, bal |-> S.bal]
 EsmStepConforms(C, S, name, a, ok, S2) == LET r == EsmAct(C, S, name, a) IN r.ok = ok /\ EsmView(r.s) = EsmView(S2)
 
-(* ---- monitored only (no property of this family demands it): a redemption of x debt coins by u pays, per collateral denom, ---- *)
+(* ============================ laws of the shutdown life cycle (XESM_*, beyond the listed properties) ============================ *)
+(* stage flags only ever go up, and in the order the begin blocker takes them *)
+StageFlags == <<"found", "status", "snap", "vaultRed", "stableRed", "collTx", "shareCalc">>
+StagesMonotone(S, S2) == \A k \in 1..Len(StageFlags) : S.esm[StageFlags[k]] => S2.esm[StageFlags[k]]
+StagesOrdered(S) == /\ (S.esm.status => S.esm.found) /\ (S.esm.snap => S.esm.status)
+                    /\ (S.esm.vaultRed \/ S.esm.stableRed \/ S.esm.collTx => S.esm.snap)
+                    /\ (S.esm.shareCalc => S.esm.vaultRed /\ S.esm.stableRed /\ S.esm.collTx)
+(* the price snapshot is taken once *)
+SnapshotFixed(S, S2) == S.esm.snap => S2.esm.snaps = S.esm.snaps
+(* the cool-off window is fixed at execution *)
+WindowFixed(S, S2) == S.esm.found => S2.esm.start = S.esm.start /\ S2.esm.end = S.esm.end
+(* the esm account holds, per collateral denom, exactly what the book lists for redemption (delta form; unsolicited coins aside) *)
+EsmHeld(S, d) == S.bal["esmV1"][d]
+BookBacked(S, S2, d) == EsmHeld(S2, d) - EsmHeld(S, d) = EsmColl(S2, d) - EsmColl(S, d)
+(* the vault stage: every vault that was open leaves, all its collateral goes to the esm account and into the book *)
+VaultStageExact(C, S, S2) ==
+   /\ \A v \in Range(S.vaults) : ~HasVault(S2, v.id)
+   /\ \A d \in {"ucm", "uat"} : EsmColl(S2, d) - EsmColl(S, d) >= SumSeq(S.vaults, LAMBDA v : IF ProdOf(C, v.prod).collD = d THEN v.in ELSE 0)
+(* once the vault stage is done no vault may be (re-)opened: nothing would ever move it into the redemption book, and its owner can no longer withdraw *)
+NoVaultAfterStage(S, S2) == S2.esm.vaultRed => \A v \in Range(S2.vaults) : HasVault(S, v.id)
+(* a redemption of x debt coins burns exactly x and strikes exactly x off the registered debt *)
+RedeemBurns(S, S2, u, x) ==
+   /\ S2.supply["ust"] = S.supply["ust"] - x /\ S2.ubal[u]["ust"] = S.ubal[u]["ust"] - x
+   /\ EsmDebt(S2, "ust") = EsmDebt(S, "ust") - x
+(* what the redeemer receives is what leaves the esm account and the book, nobody else is paid *)
+RedeemPaysFromBook(S, S2, u, d) ==
+   /\ S2.ubal[u][d] - S.ubal[u][d] = EsmHeld(S, d) - EsmHeld(S2, d)
+   /\ S2.ubal[u][d] >= S.ubal[u][d]
+   /\ \A w \in DOMAIN S.ubal : w # u => S2.ubal[w] = S.ubal[w]
+
+(* ---- a redemption of x debt coins by u pays, per collateral denom, ---- *)
 (* ---- no more than the pro-rata part x / (debt registered) of the collateral held for redemption                          ---- *)
 RedeemWithinProRata(S, S2, u, x, d) ==
    (S2.ubal[u][d] - S.ubal[u][d]) * EsmDebt(S, "ust") <= x * EsmColl(S, d)
